@@ -23,6 +23,8 @@ if __name__ == '__main__':
           bound='17 unusual request paths (raw control characters, percent-encoded non-latin-1, CR/LF, NUL, surplus / empty segments) with a valid GetMdib body against a real provider')
     c.run('C13.open_connection_framing', 'B', wrap(replays_C13.open_connection_framing, 8), replay_fn='C13:open_connection_framing',
           bound='8 malformed / absent length framings (negative, signed, empty, duplicate Content-Length, none) sent over a connection the client keeps open, 4 s limit each, real provider')
+    c.run('C13.schema_invalid_bodies', 'B', wrap(replays_C13.schema_invalid_bodies, 6), replay_fn='C13:schema_invalid_bodies',
+          bound='6 schema-invalid GetMdState requests whose offending name / value / text contains non-latin-1 characters or line feeds, real provider')
     c.run('C13.fault_text_always_serializable', 'B', wrap(replays_C13.fault_text, 0x110000), replay_fn='C13:fault_text',
           bound='Fault.add_reason_text on every one of the 1114112 Unicode code points (exhaustive for a per-character function): result accepted by lxml, legal characters unchanged')
     from native import C09_native
